@@ -74,7 +74,7 @@ func newGraph(routeSource string) *graph {
 	conf.FelixHostname = localHost
 	conf.BPFEnabled = true
 	conf.RouteSource = routeSource
-	conf.Encapsulation = config.Encapsulation{VXLANEnabled: true}
+	conf.Encapsulation = config.Encapsulation{VXLANEnabled: true, VXLANEnabledV6: true}
 	g.es = calc.NewEventSequencer(&dummyConfig{})
 	g.es.Callback = func(m any) {
 		if pm, ok := m.(googleproto.Message); ok {
@@ -897,7 +897,12 @@ func genEvents(r *rng, u []*ukey, n int, scripted bool) []event {
 		switch {
 		case x < 46:
 			k := pickKey()
-			set(k, uint64(r.intn(k.nvar)), "set")
+			if cv, present := cur[k.name]; present && k.class == "node" && r.chance(45) {
+				// node re-addressing in place: same IPv4 side, labels etc., only the IPv6 address differs
+				set(k, (cv/3)*3+(cv%3+1+uint64(r.intn(2)))%3, "set6")
+			} else {
+				set(k, uint64(r.intn(k.nvar)), "set")
+			}
 		case x < 60:
 			del(pickKey())
 		case x < 70:
@@ -1091,6 +1096,9 @@ func evalHistory(seed uint64, idx int, u []*ukey, st *stats, evs []event, routeS
 				if e.op == "dup" {
 					st.dups++
 					tags["op:duplicate"] = true
+				}
+				if e.op == "set6" {
+					tags["op:node-ipv6-only-change"] = true
 				}
 				ut := api.UpdateTypeKVNew
 				if _, present := cur[e.k.name]; present {
